@@ -124,6 +124,13 @@ def Fw.addRule (fw : Fw) (r : Rule) : Except AddErr Fw :=
     | .ok t => .ok { fw with outRules := t }
     | .error e => .error e
 
+/-- a whole rule list through `AddRule` in order; a refused rule leaves the firewall untouched (the caller
+sees the error). -/
+def Fw.addRules (fw : Fw) (rules : List Rule) : Fw :=
+  rules.foldl (fun fw r => match fw.addRule r with
+    | .ok fw' => fw'
+    | .error _ => fw) fw
+
 def Fw.table (fw : Fw) (incoming : Bool) : Table := if incoming then fw.inRules else fw.outRules
 
 def Fw.timeoutFor (fw : Fw) (proto : Nat) : Nat :=
